@@ -226,7 +226,7 @@ def check_sat(assumptions, timeout_ms=2000):
     return str(r), s
 
 
-def feasible(p, extra=None, timeout_ms=1500):
+def feasible(p, extra=None, timeout_ms=400):
     asm = list(p.pc)
     if extra is not None:
         if z3.is_false(extra):
@@ -236,7 +236,7 @@ def feasible(p, extra=None, timeout_ms=1500):
     return r != 'unsat'
 
 
-def entails(p, f, timeout_ms=1500):
+def entails(p, f, timeout_ms=600):
     if z3.is_true(f):
         return True
     r, _ = check_sat(list(p.pc) + [z3.Not(f)], timeout_ms)
